@@ -77,17 +77,62 @@ class TLCResult:
             cov[m.group(1)] = (int(m.group(3)), int(m.group(4)))
         return cov
 
-    def printed(self):
-        """Values printed with PrintT, one per line, that parse as TLA+ values."""
+    def printed(self, marker=None):
+        """Values printed with PrintT (possibly wrapped over several lines) that parse as TLA+ values.
+        With `marker`, only tuples printed as <<"marker", ...>> are returned."""
         vals = []
-        for line in self.out.splitlines():
-            line = line.strip()
-            if line.startswith(('<<', '[', '{', '(')):
-                try:
-                    vals.append(tlaval.parse_value(line))
-                except ValueError:
-                    pass
+        out = self.out
+        start = re.compile(r'<<\s*"%s"' % re.escape(marker)) if marker else None
+        pos = 0
+        while True:
+            if start:
+                m = start.search(out, pos)
+                i = m.start() if m else -1
+            else:
+                m = re.compile(r'^(<<|\[|\{|\()', re.M).search(out, pos)
+                i = m.start() if m else -1
+            if i < 0:
+                break
+            j = _balanced_end(out, i)
+            if j < 0:
+                pos = i + 2
+                continue
+            try:
+                vals.append(tlaval.parse_value(out[i:j]))
+            except (ValueError, IndexError):
+                pass
+            pos = j
         return vals
+
+
+def _balanced_end(text, i):
+    """Index just past the bracketed TLA+ value starting at text[i], or -1."""
+    depth = 0
+    n = len(text)
+    k = i
+    instr = False
+    while k < n:
+        ch = text[k]
+        if instr:
+            if ch == '\\':
+                k += 1
+            elif ch == '"':
+                instr = False
+        elif ch == '"':
+            instr = True
+        elif text.startswith('<<', k) or text.startswith('>>', k):
+            depth += 1 if text[k] == '<' else -1
+            k += 1
+            if depth == 0:
+                return k + 1
+        elif ch in '[{(':
+            depth += 1
+        elif ch in ']})':
+            depth -= 1
+            if depth == 0:
+                return k + 1
+        k += 1
+    return -1
 
 
 def run_tlc(module, cfg, workdir, *, workers=16, timeout=600, dump=None, dot=None, simulate=None,
@@ -306,7 +351,7 @@ def validate_traces(trace_module, cfg, traces, workdir, *, timeout=900, extra_en
                   deque=deque, heap=heap)
     os.unlink(tf)
     progress = None
-    for v in res.printed():
+    for v in res.printed("TRACE_PROGRESS"):
         if isinstance(v, tuple) and len(v) == 2 and v[0] == "TRACE_PROGRESS":
             p = v[1]
             if isinstance(p, dict):
